@@ -315,6 +315,34 @@ func init() {
 				c.Count("named_cases", 1)
 				c15Compare(c, src, runEnvs, typed, fmt.Sprintf("%+v", e), fmt.Sprintf("named|%s|%+v", src, e))
 			}},
+			{Name: "same-name-types", N: func(string) uint64 { return 48 }, Run: func(c *runner.Ctx, idx uint64) {
+				// two distinct struct types that print identically (function-local
+				// types of one name) with another field order, both used as the
+				// environment in the same worker process, in both orders
+				srcs := []string{"Name + \"/\" + Title", "N - M", "Name", "Title", "[N, M]", "N > M ? Name : Title", "In.N - In.M", "In.Name + Title"}
+				src := srcs[idx%uint64(len(srcs))]
+				k := int(idx/uint64(len(srcs))) + 1
+				order := []int{0, 1}
+				if idx%2 == 1 {
+					order = []int{1, 0}
+				}
+				for _, which := range order {
+					c.Begin(src)
+					var v, pv, sv, spv interface{}
+					if which == 0 {
+						v, pv, sv, spv = c15RecA(k)
+					} else {
+						v, pv, sv, spv = c15RecB(k)
+					}
+					in := map[string]interface{}{"Name": fmt.Sprintf("in%d", k), "Title": fmt.Sprintf("it%d", k), "N": 100 * k, "M": 7 * k}
+					m := map[string]interface{}{"Name": fmt.Sprintf("n%d", k), "Title": fmt.Sprintf("t%d", k), "N": 10 * k, "M": k, "In": in}
+					sm := map[string]interface{}{"Name": "", "Title": "", "N": 0, "M": 0, "In": map[string]interface{}{"Name": "", "Title": "", "N": 0, "M": 0}}
+					runEnvs := []c15RunEnv{{"struct", v}, {"pointer", pv}, {"map", m}}
+					typed := []c15Typed{{"Env(struct)", expr.Env(sv), v}, {"Env(*struct)", expr.Env(spv), pv}, {"Env(map)", expr.Env(sm), m}}
+					c.Count("same_name_cases", 1)
+					c15Compare(c, src, runEnvs, typed, fmt.Sprintf("%T#%d %+v", v, which, v), fmt.Sprintf("samename|%s|%d|%d", src, which, k))
+				}
+			}},
 			{Name: "retyped-arguments", N: func(tier string) uint64 {
 				if tier == "thorough" {
 					return 120000
@@ -330,6 +358,9 @@ func init() {
 			}},
 		},
 		Post: func(a *runner.Aggregate) []string {
+			if a.Counters["same_name_cases"] == 0 {
+				return []string{"same-name struct type cases did not run"}
+			}
 			if a.Counters["named_cases"] == 0 || a.Counters["retype_cases"] == 0 {
 				return []string{"named-type or retyped-argument cases did not run"}
 			}
@@ -339,4 +370,41 @@ func init() {
 			return nil
 		},
 	})
+}
+
+// c15RecA and c15RecB declare two different types that both print as
+// "checks.Rec": same member names, another field order (and another order in
+// the nested struct). Returned: value, pointer, zero sample, pointer sample.
+func c15RecA(k int) (interface{}, interface{}, interface{}, interface{}) {
+	type In struct {
+		Name, Title string
+		N, M        int
+	}
+	type Rec struct {
+		Name, Title string
+		N, M        int
+		In          In
+	}
+	v := Rec{Name: fmt.Sprintf("n%d", k), Title: fmt.Sprintf("t%d", k), N: 10 * k, M: k, In: In{Name: fmt.Sprintf("in%d", k), Title: fmt.Sprintf("it%d", k), N: 100 * k, M: 7 * k}}
+	w := v
+	return v, &w, Rec{}, &Rec{}
+}
+
+func c15RecB(k int) (interface{}, interface{}, interface{}, interface{}) {
+	type In struct {
+		M     int
+		Title string
+		N     int
+		Name  string
+	}
+	type Rec struct {
+		In    In
+		Title string
+		M     int
+		Name  string
+		N     int
+	}
+	v := Rec{Name: fmt.Sprintf("n%d", k), Title: fmt.Sprintf("t%d", k), N: 10 * k, M: k, In: In{Name: fmt.Sprintf("in%d", k), Title: fmt.Sprintf("it%d", k), N: 100 * k, M: 7 * k}}
+	w := v
+	return v, &w, Rec{}, &Rec{}
 }
